@@ -1,6 +1,7 @@
 //! Verification harness for facebook/akd: runs the implementation (from /repo's working tree) on
 //! generated inputs and prints canonical traces for the correspondence with the Coq model, plus
 //! the result of per-property direct oracles.
+mod dirs;
 mod faultdb;
 mod labels;
 mod markers;
@@ -60,6 +61,19 @@ fn main() {
                 writeln!(out, "ORACLE-FAIL {}", f).unwrap();
             }
             writeln!(out, "SUMMARY cases={} sequences={} oracle_failures={}", o.cases, o.seqs, o.fails.len()).unwrap();
+        }
+        "dirs" => {
+            let cx = dirs::run(arg(&args, 2, 1u64), arg(&args, 3, 0u32));
+            out.write_all(cx.out.as_bytes()).unwrap();
+            for f in &cx.fails {
+                writeln!(out, "ORACLE-FAIL {}", f).unwrap();
+            }
+            write!(out, "STAT").unwrap();
+            for (k, v) in &cx.stats {
+                write!(out, " {}={}", k, v).unwrap();
+            }
+            writeln!(out).unwrap();
+            writeln!(out, "SUMMARY cases={} oracle_failures={}", cx.cases, cx.fails.len()).unwrap();
         }
         _ => {
             eprintln!("usage: akd-verif-harness <labels> seed tier");
